@@ -147,6 +147,9 @@ def same(a, b):
         return False
 
 
+from ..ndarr import same_magnitude      # noqa: E402
+
+
 def run(ctx):
     rep = ctx.rep
     rep.notes['explanation'] = (
@@ -197,6 +200,25 @@ def epsalg(ctx, ex):
         rep.check(same(got, want), 'R-EPSALG', 'extrapolation.EpsAlg.__call__', where,
                   {'after_term': n, 'returned': repr(got)[:160], 'expected_entry': 'eps_%d^(%d)' % (2 * m, n - 2 * m)},
                   'highest even-order entry determined by the terms seen', 'term %d' % n, key='epsalg table')
+    # a second object of the same process, fed another sequence: its values are entries of the table of ITS terms (nothing
+    # of the first object's table is shared between objects)
+    # (own interpreter run, the first object fed one term only: were the tables shared, symbolic entries of a long
+    # common table would be computed for nothing)
+    I2, _m2 = make(ctx.repo, oracle)
+    E2 = I2.get_global('extrapolation', 'EpsAlg')
+    E2()(Poly.sym('s0'))
+    t = [Poly.sym('t%d' % k) for k in range(3)]
+    table2 = eps_table(t)
+    obj2 = E2()
+    for n in range(3):
+        got = obj2(t[n])
+        m = n // 2
+        want = table2[(2 * m, n - 2 * m)]
+        rep.check(same(got, want), 'R-EPSALG', 'extrapolation.EpsAlg.__call__', where,
+                  {'object': 'second object of the process', 'after_term': n, 'returned': repr(got)[:160],
+                   'expected_entry': 'eps_%d^(%d) of its own terms' % (2 * m, n - 2 * m)},
+                  'highest even-order entry determined by the terms this object has seen', 'second object, term %d' % n,
+                  key='epsalg second object')
     # guard constant
     consts = []
     for c in guard_cmps:
@@ -289,6 +311,7 @@ def dea_first_iteration(repo):
     cmps = []
     I, models = make(repo, oracle)
     D = I.get_global('extrapolation', 'Dea')
+    D(limexp=3)(Poly.sym('w0'))      # an earlier object of the same process, already used: it shares nothing with the next
     obj = D(limexp=3)
     e = [Poly.sym('e%d' % k) for k in range(3)]
     out = None
@@ -331,7 +354,20 @@ def dea_vs_dea3(ctx, ex):
     dea3 = I.get_global('extrapolation', 'dea3')
     e = [Poly.sym('e%d' % k) for k in range(3)]
     r3, _ = dea3(*e)
-    r3 = all_b(r3.item() if isinstance(r3, Arr) else r3)
+    r3 = r3.item() if isinstance(r3, Arr) else r3
+    # the two translations of the three term rule apply the same irregular-behaviour test: what dea3 compares with 1e-4
+    # is (up to the way a magnitude is written) what Dea compares with 1e-4
+    from .c13 import cmp_leaves, norm_cmp
+    from ..absint import Choice
+    irr3 = [c for c in (norm_cmp(c) for c in (cmp_leaves(r3.cond) if isinstance(r3, Choice) else []))
+            if ndarr.concrete_real(c[2]) == Fr(1, 10000)]
+    irrd = [all_b(t[2]) for t in info['cmps'] if ndarr.concrete_real(t[3]) == Fr(1, 10000)]
+    differing = [repr(c[1])[:160] for c in irr3 if not any(same_magnitude(c[1], d) for d in irrd)]
+    rep.check(bool(irr3) and not differing, 'R-DEA-DEA3', 'extrapolation.Dea._dea', where_cls(ex, 'Dea', '_dea'),
+              {'dea3_compares_with_1e-4': [repr(c[1])[:160] for c in irr3][:2], 'Dea_compares_with_1e-4': [repr(d)[:160] for d in irrd][:2],
+               'without_counterpart': differing[:2]},
+              'the same irregularity measure in both', 'three terms: the irregular-behaviour test of dea3 and of Dea', key='dea-dea3 guard')
+    r3 = all_b(r3)
     ok = same(info['value'], r3)
     # same three tests: compare the left hand sides |e1-e0|, |e2-e1|, |sss*e1|
     want_irregular = [t for t in info['tests'] if '<= Fraction(1, 10000)' in t or '<= 1/10000' in t]
